@@ -1,5 +1,7 @@
 //! Borsh support for `HipByt`.
 
+use alloc::vec::Vec;
+
 use borsh::io::{self};
 use borsh::{BorshDeserialize, BorshSerialize};
 
@@ -9,21 +11,22 @@ use crate::Backend;
 #[cfg(test)]
 mod tests;
 
+/// Maximal number of bytes reserved upfront when deserializing.
+const MAX_PREALLOCATION: usize = 4096;
+
 impl<B: Backend> BorshDeserialize for HipByt<'_, B> {
     fn deserialize_reader<R: io::Read>(reader: &mut R) -> io::Result<Self> {
         let len = u32::deserialize_reader(reader)? as usize;
         if len == 0 {
             Ok(Self::new())
         } else {
-            let mut result = Self::with_capacity(len);
-            let slice = result.spare_capacity_mut();
-            for byte in slice.iter_mut().take(len) {
-                byte.write(u8::deserialize_reader(reader)?);
+            // the length prefix is not trusted for the allocation: reserve a
+            // bounded amount and grow as the bytes actually arrive
+            let mut vec = Vec::with_capacity(len.min(MAX_PREALLOCATION));
+            for _ in 0..len {
+                vec.push(u8::deserialize_reader(reader)?);
             }
-            unsafe {
-                result.set_len(len);
-            }
-            Ok(result)
+            Ok(Self::from(vec))
         }
     }
 }
